@@ -12,6 +12,26 @@ from sa.util import self_attr
 TRIAL = "optuna.trial._trial.Trial"
 
 
+def fixed_decider(p):
+    """The helper that decides whether a name is among the trial's fixed parameters, by role: the private method of Trial (or helper of
+    its module taking the trial) other than _suggest that tests `name in/not in <trial>._fixed_params`. Returns (Func, returns_tuple)."""
+    tcls = p.cls(TRIAL)
+    cands = []
+    sug = tcls.methods.get("_suggest")
+    called = {(self_attr(c.func) or (c.func.id if isinstance(c.func, ast.Name) else None)) for c in own_nodes(sug.node) if isinstance(c, ast.Call)} if sug else set()
+    for fn in list(tcls.methods.values()) + [f_ for f_ in p.iter_funcs((tcls.module.name,)) if f_.cls is None]:
+        if fn.name in ("_suggest", "__init__") or not fn.name.startswith("_") or fn.name not in called:
+            continue
+        # the helper _suggest consults that reads the table of fixed parameters (whether or not it still tests membership: that is a rule)
+        if any(isinstance(x, ast.Attribute) and x.attr == "_fixed_params" and isinstance(x.ctx, ast.Load) for x in own_nodes(fn.node)):
+            cands.append(fn)
+    if len(cands) != 1:
+        return None, False
+    fn = cands[0]
+    rets = [n.value for n in own_nodes(fn.node) if isinstance(n, ast.Return) and n.value is not None]
+    return fn, bool(rets) and all(isinstance(r, ast.Tuple) and len(r.elts) == 2 for r in rets)
+
+
 def suggest_chain(ctx, rule):
     p = ctx.program
     R = rule
@@ -19,6 +39,18 @@ def suggest_chain(ctx, rule):
     f = tcls.methods.get("_suggest")
     ctx.require(f is not None, "R04.5: Trial._suggest vanished")
     g = CFG(f.node, name=f.qualname)
+    dec, dec_tuple = fixed_decider(p)
+    ctx.require(dec is not None, f"{R}: the helper deciding `name in self._fixed_params` was not found (or is not unique)")
+    DEC = dec.name
+    # (flag, value) return convention: the names the call's result is unpacked into
+    flag_names, value_names = set(), set()
+    if dec_tuple:
+        for n_ in own_nodes(f.node):
+            if isinstance(n_, ast.Assign) and isinstance(n_.targets[0], ast.Tuple) and len(n_.targets[0].elts) == 2 and isinstance(n_.value, ast.Call) \
+                    and (self_attr(n_.value.func) == DEC or (isinstance(n_.value.func, ast.Name) and n_.value.func.id == DEC)) \
+                    and all(isinstance(e_, ast.Name) for e_ in n_.targets[0].elts):
+                flag_names.add(n_.targets[0].elts[0].id)
+                value_names.add(n_.targets[0].elts[1].id)
 
     def test_of(pred):
         return [t for t in g.stmt_nodes() if t.kind == "test" and pred(t.expr)]
@@ -26,7 +58,7 @@ def suggest_chain(ctx, rule):
     def _calls(x, name):
         """`self.<name>(..)` or, when the helper was moved out of the class, `<name>(self, ..)`"""
         return isinstance(x, ast.Call) and (self_attr(x.func) == name or (isinstance(x.func, ast.Name) and x.func.id == name))
-    t_fixed = test_of(lambda e: any(_calls(x, "_is_fixed_param") for x in ast.walk(e)))
+    t_fixed = test_of(lambda e: any(_calls(x, DEC) or (isinstance(x, ast.Name) and x.id in flag_names) for x in ast.walk(e)))
     t_single = test_of(lambda e: any(isinstance(x, ast.Call) and isinstance(x.func, ast.Attribute) and x.func.attr == "single" for x in ast.walk(e)))
     t_rel = test_of(lambda e: any(_calls(x, "_is_relative_param") for x in ast.walk(e)))
     if not t_reuse:
@@ -35,7 +67,21 @@ def suggest_chain(ctx, rule):
     ctx.require(t_fixed and t_single and t_rel, f"{R}: a branch of the suggest chain vanished")
     indep = [n for n in g.stmt_nodes() for c in n.calls() if isinstance(c.func, ast.Attribute) and c.func.attr == "sample_independent"]
     rel_read = [n for n in g.stmt_nodes() if n.kind == "stmt" and "self.relative_params[" in norm(n.ast)]
-    fixed_read = [n for n in g.stmt_nodes() if n.kind == "stmt" and isinstance(n.ast, ast.Assign) and norm(n.ast.value) == "self._fixed_params[name]"]
+    fixed_read = [n for n in g.stmt_nodes() if n.kind == "stmt" and isinstance(n.ast, ast.Assign)
+                  and (norm(n.ast.value) == "self._fixed_params[name]" or (isinstance(n.ast.value, ast.Name) and n.ast.value.id in value_names))]
+    if dec_tuple:
+        # what the helper hands back as the value is the fixed value itself
+        ddefs = {}
+        for n_ in own_nodes(dec.node):
+            if isinstance(n_, ast.Assign) and len(n_.targets) == 1 and isinstance(n_.targets[0], ast.Name):
+                ddefs.setdefault(n_.targets[0].id, []).append(n_.value)
+        for r_ in [n_.value for n_ in own_nodes(dec.node) if isinstance(n_, ast.Return) and isinstance(n_.value, ast.Tuple)]:
+            flag, val = r_.elts
+            if isinstance(flag, ast.Constant) and flag.value is True:
+                vals = ddefs.get(val.id, [val]) if isinstance(val, ast.Name) else [val]
+                ctx.check(all(norm(v).endswith("._fixed_params[name]") for v in vals), R, dec.short, "decider-hands-back-the-fixed-value",
+                          message=f"{dec.name} returns (True, `{norm(val)}`), which is not the enqueued value `self._fixed_params[name]`", how="(True, self._fixed_params[name])")
+
     single_read = [n for n in g.stmt_nodes() for c in n.calls() if (dotted(c.func) or "").endswith("_get_single_value")]
     ctx.require(indep and rel_read and fixed_read and single_read, f"{R}: a value source of the suggest chain vanished")
 
@@ -51,7 +97,7 @@ def suggest_chain(ctx, rule):
     ctx.check(ok, R, f.short, "fixed-before-sampler",
               message="_suggest can take a value from single()/relative/independent sampling without first having found the "
                       "parameter NOT fixed: an enqueued value would be overridden by the sampler",
-              how="every sampler/single value source is dominated by the False edge of _is_fixed_param")
+              how="every sampler/single value source is dominated by the False edge of the fixed-parameter test")
     ok = all(g.dominated_by(n, [], pos_edges(t_fixed, True)) for n in fixed_read)
     ctx.check(ok, R, f.short, "fixed-value-under-fixed-test", message="fixed value used without the fixed test", how="dominated by True edge")
     ok = all(g.dominated_by(n, [], pos_edges(t_rel, True)) and g.dominated_by(n, [], pos_edges(t_single, False)) for n in rel_read)
@@ -98,8 +144,8 @@ def fixed_iff_rule(ctx, rule):
     p = ctx.program
     tcls = p.cls(TRIAL)
     # _is_fixed_param: True whenever the name is fixed
-    f = tcls.methods.get("_is_fixed_param") or p.funcs.get(tcls.module.name + "._is_fixed_param")
-    ctx.require(f is not None, f"{rule}: _is_fixed_param vanished")
+    f, f_tuple = fixed_decider(p)
+    ctx.require(f is not None, f"{rule}: the helper deciding `name in self._fixed_params` vanished")
     recv = f.params()[0] if f.params() else "self"  # `self`, or the trial parameter of a module-level helper
     g = CFG(f.node, name=f.qualname)
 
@@ -116,7 +162,10 @@ def fixed_iff_rule(ctx, rule):
                 if pol.get(k) is True:
                     acc_in.append((t, k, m))
     rets = [n for n in g.stmt_nodes() if n.kind == "stmt" and isinstance(n.ast, ast.Return)]
-    okT = all((isinstance(n.ast.value, ast.Constant) and n.ast.value.value is True) == g.dominated_by(n, [], acc_in) for n in rets) and bool(acc_in)
+    def _says_true(v):
+        v = v.elts[0] if (f_tuple and isinstance(v, ast.Tuple)) else v
+        return isinstance(v, ast.Constant) and v.value is True
+    okT = all(_says_true(n.ast.value) == g.dominated_by(n, [], acc_in) for n in rets) and bool(acc_in)
     ctx.check(okT, rule, f.short, "fixed-iff-name-in-fixed-params",
               message="_is_fixed_param does not return True exactly when the name is among the fixed parameters (e.g. an out-of-range "
                       "enqueued value is silently replaced by the sampler)",
